@@ -384,6 +384,17 @@ pub fn signature(route: &str, m: &Mis, text: &[u8], stream: &[Y], r: Option<&gy:
     sig
 }
 
+/// index of the first document whose root is a block scalar (`block == true`) or carries an
+/// anchor (`block == false`)
+fn first_doc_with(r: &gy::RenderedYaml, block: bool) -> Option<usize> {
+    let a = r.spans.iter().filter(|s| s.path.is_empty() && if block { matches!(s.style, gy::YStyle::Literal | gy::YStyle::Folded) } else { s.anchor.is_some() }).map(|s| s.doc).min();
+    let b = if block { None } else { r.containers.iter().filter(|c| c.path.is_empty() && c.anchor.is_some()).map(|c| c.doc).min() };
+    match (a, b) {
+        (Some(x), Some(y)) => Some(x.min(y)),
+        (x, y) => x.or(y),
+    }
+}
+
 /// Attribution through the generator's span table (exact for generated text): the first
 /// recorded-finding shape present in the stream whose known wrong answers include this
 /// kind of failure.
@@ -401,8 +412,10 @@ fn shape_from_spans(route: &str, m: &Mis, r: &gy::RenderedYaml) -> Option<&'stat
         ("empty-node-at-eof-len64", "walk", "null") => m.actual.contains("invalid cursor position"),
         ("nextline-plain-continuation-not-deeper", "walk", "str-content") => true,
         ("literal-hash-first-then-indented", "walk", _) => true,
-        ("root-anchor-then-comment", "walk", _) => root,
-        ("root-block-scalar-reread", "walk", _) => root,
+        // these two shapes make the loader emit an extra document, so every later document
+        // is shifted: a mismatch anywhere in a document after the shape's own is a consequence
+        ("root-anchor-then-comment", "walk", _) => root || first_doc_with(r, false).map_or(false, |d| m.doc > d),
+        ("root-block-scalar-reread", "walk", _) => root || first_doc_with(r, true).map_or(false, |d| m.doc > d),
         _ => false,
     })
 }
